@@ -12,6 +12,7 @@ import itertools
 import json
 import os
 import random
+import shutil
 import re
 import subprocess
 
@@ -1017,14 +1018,25 @@ def main(ctx, replay):
     for fl in flavours:
         for (cn, old, new) in contents:
             jobs.append((fl, cn, old, new))
+        # the configured path is a symbolic link to a file in another directory (a "current release" layout)
+        jobs.append((fl, "cfg@link", OLD, NEW))
+        jobs.append((fl, "short@link", b"old\n", b"n"))
 
     def clean_run(job):
         fl, cn, old, new = job
         d = os.path.join(fsdir, "%s-%s" % (fl, cn))
         os.makedirs(d, exist_ok=True)
         p = os.path.join(d, "Hookaidofile")
-        open(p, "wb").write(old)
-        os.chmod(p, 0o640)
+        if cn.endswith("@link"):
+            shutil.rmtree(d, ignore_errors=True)
+            os.makedirs(os.path.join(d, "real"))
+            real = os.path.join(d, "real", "Hookaidofile")
+            open(real, "wb").write(old)
+            os.chmod(real, 0o640)
+            os.symlink(real, p)
+        else:
+            open(p, "wb").write(old)
+            os.chmod(p, 0o640)
         rc, out, err, tr = strace_run(hbin, d, "clean", {"flavour": fl, "path": p, "data_b64": base64.b64encode(new).decode()})
         return job, d, p, rc, out, err, tr
     with concurrent.futures.ThreadPoolExecutor(12) as ex:
@@ -1041,7 +1053,7 @@ def main(ctx, replay):
         childerr = json.loads(out)["err"]
         after = open(p, "rb").read()
         mode_after = os.stat(p).st_mode & 0o777
-        stray = [n for n in os.listdir(d) if n not in ("Hookaidofile", "clean.trace")]
+        stray = [n for n in os.listdir(d) if n not in ("Hookaidofile", "clean.trace", "real")]
         ops = to_fsops(calls[win[0] + 1:win[1]], p)
         rep["trace"] = [list(o[:2]) + ([len(o[2])] if o[0] == "Write" else list(o[2:])) for o in ops]
         if childerr or after != new:
@@ -1064,7 +1076,7 @@ def main(ctx, replay):
             counts[name] = counts.get(name, 0) + 1
             if win[0] < idx <= win[1] and name not in ("fcntl", "epoll_ctl"):
                 pts.append((name, counts[name], idx - win[0]))
-        if cn in ("cfg", "short") or ctx.tier != "quick":
+        if cn in ("cfg", "short", "cfg@link", "short@link") or ctx.tier != "quick":
             for (name, nth, pos) in pts:
                 kill_jobs.append((job, name, nth, pos, len(pts)))
     bodies = []
@@ -1096,7 +1108,13 @@ def main(ctx, replay):
         d = os.path.join(fsdir, "%s-%s-kill-%s-%d" % (fl, cn, name, nth))
         os.makedirs(d, exist_ok=True)
         p = os.path.join(d, "Hookaidofile")
-        open(p, "wb").write(old)
+        if cn.endswith("@link"):
+            shutil.rmtree(d, ignore_errors=True)
+            os.makedirs(os.path.join(d, "real"))
+            open(os.path.join(d, "real", "Hookaidofile"), "wb").write(old)
+            os.symlink(os.path.join(d, "real", "Hookaidofile"), p)
+        else:
+            open(p, "wb").write(old)
         rc, out, err, tr = strace_run(hbin, d, "kill", {"flavour": fl, "path": p, "data_b64": base64.b64encode(new).decode()},
                                       extra=["-e", "inject=%s:signal=SIGKILL:when=%d" % (name, nth)])
         calls = read_trace(tr)
@@ -1105,7 +1123,7 @@ def main(ctx, replay):
             content = open(p, "rb").read()
         except OSError:
             content = None
-        names = sorted(n for n in os.listdir(d) if n != "kill.trace")
+        names = sorted(n for n in os.listdir(d) if n not in ("kill.trace", "real"))
         # the replacement still works afterwards (a stray temp file must not be in the way)
         again = subprocess.run([hbin, "fsatomic-child"], input=json.dumps({"flavour": fl if fl != "mcp-rollback" else "mcp", "path": p, "data_b64": base64.b64encode(b"again\n").decode()}),
                                text=True, stdout=subprocess.PIPE, stderr=subprocess.PIPE)
